@@ -1,8 +1,9 @@
 (* C14 — Discovery updates converge to the last published server set, filtered.
    Statements only; every proof is `exact <lemma>`. *)
-From Coq Require Import List Arith Bool.
-From RPCX Require Import XClient.Discovery XClient.DiscoveryProofs.
+From Coq Require Import List Arith Bool NArith.
+From RPCX Require Import Wire.Bytes Server.Gateway XClient.Discovery XClient.DiscoveryProofs XClient.Metadata XClient.MetadataProofs.
 Import ListNotations.
+Close Scope N_scope.
 
 (* For every sequence of publications interleaved in every possible way with the client's watch
    loop (one channel of capacity 10 per watcher; a full channel drops its oldest snapshot): once
@@ -28,6 +29,41 @@ Theorem C14_keep_rule : forall group kvs,
   first_val K_STATE kvs <> Some V_INACTIVE /\ (group = 0 \/ In group (all_vals K_GROUP kvs)).
 Proof. exact keep_server_spec. Qed.
 
+
+(* ---- on the raw metadata strings (XClient/Metadata.v: url.ParseQuery as modelled in Server/Gateway.v) ---- *)
+(* a server is kept exactly when its metadata does not parse, or its state is not "inactive" and - if the client
+   has a group - one of its group values is that group *)
+Theorem C14_keep_rule_on_raw_metadata : forall group meta,
+  keep_raw group meta = true <->
+  match parse_meta meta with
+  | None => True
+  | Some kvs => q_get S_STATE kvs <> S_INACTIVE /\ (group = [] \/ In group (q_all S_GROUP kvs))
+  end.
+Proof. exact keep_raw_spec. Qed.
+
+Theorem C14_filter_on_raw_metadata : forall group servers k m,
+  In (k, m) (filter_raw group servers) <-> In (k, m) servers /\ keep_raw group m = true.
+Proof. exact filter_raw_spec. Qed.
+
+(* the raw rule IS the interned rule of C14_keep_rule, for every injective numbering of the strings that gives the
+   reserved words their numbers *)
+Theorem C14_raw_rule_refines_to_the_model : forall (intern : bytes -> nat),
+  (forall a b, intern a = intern b -> a = b) ->
+  intern S_STATE = K_STATE -> intern S_GROUP = K_GROUP -> intern S_INACTIVE = V_INACTIVE -> intern [] = 0 ->
+  forall group meta,
+  keep_raw group meta = keep_server (intern group) (option_map (imap intern) (parse_meta meta)).
+Proof. exact keep_raw_refines. Qed.
+
+(* non-vacuity: "st%61te=inactive" is state=inactive; "state=inactive;x" does not parse and is left alone *)
+Open Scope N_scope.
+Example C14_raw_nonvacuous :
+  keep_raw [] [115;116;37;54;49;116;101;61;105;110;97;99;116;105;118;101] = false /\
+  keep_raw [98] [115;116;97;116;101;61;105;110;97;99;116;105;118;101;59;120] = true /\
+  keep_raw [98] [103;114;111;117;112;61;97;38;103;114;111;117;112;61;98] = true /\
+  keep_raw [99] [103;114;111;117;112;61;97;38;103;114;111;117;112;61;98] = false.
+Proof. vm_compute. repeat split. Qed.
+Close Scope N_scope.
+
 (* selection is then from the applied set: C11 (every strategy returns a member of the most recent set) *)
 
 (* non-vacuity: 12 rapid publications with the watch loop stalled overflow the channel; draining
@@ -41,3 +77,6 @@ Print Assumptions C14_converges_to_last_published.
 Print Assumptions C14_last_published_is_last_Pub.
 Print Assumptions C14_filter_keeps_exactly.
 Print Assumptions C14_keep_rule.
+Print Assumptions C14_keep_rule_on_raw_metadata.
+Print Assumptions C14_filter_on_raw_metadata.
+Print Assumptions C14_raw_rule_refines_to_the_model.
